@@ -117,12 +117,59 @@ def run(ctx):
             e, pol = fact_atom(fact)
             return pol is True and isinstance(e, ast.Attribute) and e.attr == "authenticated"
 
+        # re-entrancy marker: an attribute of the client that the wrapper sets (to something else than None) only past the
+        # authenticated test and sets back to None in a `finally` around the wrapped call.  "Marker set" then means "an enclosing
+        # guarded operation passed the test and is still running", which is as good as the test itself.
+        markers = set()
+        selfp = fn.args.args[0].arg if fn.args.args else None
+        for a in walk_no_nested(fn):
+            if isinstance(a, ast.Assign) and len(a.targets) == 1 and isinstance(a.targets[0], ast.Attribute) and isinstance(a.targets[0].value, ast.Name) \
+                    and a.targets[0].value.id == selfp and not (isinstance(a.value, ast.Constant) and a.value.value is None):
+                attr = a.targets[0].attr
+                set_ok = all(cfg.guarded(x, is_auth_true) for x in cfg.nodes_for(a))
+                # cleared in the finally of a try that contains every wrapped call
+                cleared = any(isinstance(tr_, ast.Try) and all(any(contains(b_, c_) for b_ in tr_.body) for c_ in calls) and any(
+                    isinstance(x, ast.Assign) and any(isinstance(t_, ast.Attribute) and t_.attr == attr for t_ in x.targets)
+                    and isinstance(x.value, ast.Constant) and x.value.value is None for x in ast.walk(ast.Module(body=tr_.finalbody, type_ignores=[])))
+                    for tr_ in walk_no_nested(fn))
+                # nobody else writes it, except to None
+                foreign = [w for f_ in ctx.program.all_funcs() if f_.node is not R.guard.node and not contains(R.guard.node, f_.node)
+                           for w in walk_no_nested(f_.node)
+                           if isinstance(w, ast.Attribute) and w.attr == attr and isinstance(w.ctx, ast.Store)
+                           and not (isinstance(getattr(w, "_parent", None), (ast.Assign, ast.AnnAssign)) and isinstance(w._parent.value, ast.Constant)
+                                    and w._parent.value.value is None)]
+                if set_ok and cleared and not foreign:
+                    markers.add(attr)
+                elif set_ok and not cleared:
+                    ctx.violation("A2", R.guard.qualname, "marker-not-cleared:%s" % attr, "the guard skips the authenticated test while .%s is set, "
+                                  "and does not clear it in a finally clause: an operation that raises leaves it set, and every later "
+                                  "operation runs unchecked" % attr, node=a, file=R.guard.file,
+                                  witness="getscript raises (timeout); connect() with bad credentials; listscripts() is sent unauthenticated")
+
+        def marker_set(fact):
+            from sa.util import presence_fact
+            e, pol = presence_fact(fact)
+            if isinstance(e, ast.Attribute) and e.attr in markers and pol is True:
+                return True
+            # through a local flag: outermost = client.marker is None
+            if isinstance(e, ast.Name):
+                for d in walk_no_nested(fn):
+                    if isinstance(d, ast.Assign) and any(isinstance(t_, ast.Name) and t_.id == e.id for t_ in d.targets) \
+                            and isinstance(d.value, ast.Compare) and len(d.value.ops) == 1 and isinstance(d.value.left, ast.Attribute) \
+                            and d.value.left.attr in markers and isinstance(d.value.comparators[0], ast.Constant) and d.value.comparators[0].value is None:
+                        is_none = isinstance(d.value.ops[0], (ast.Is, ast.Eq))
+                        return (pol is False) if is_none else (pol is True)
+            return False
+
+        def is_auth_true_or_nested(fact):
+            return is_auth_true(fact) or marker_set(fact)
+
         for c in calls:
             nodes = cfg.node_containing(c)
             if not nodes:
                 raise AnalysisError("A2", "cannot locate the wrapped call in the CFG")
             for n in nodes:
-                if cfg.guarded(n, is_auth_true):
+                if cfg.guarded(n, is_auth_true_or_nested):
                     ok_any = True
                     ctx.holds("A2", "%s: %s" % (R.guard.qualname, norm(c)), "guarded by .authenticated")
                 else:
@@ -131,7 +178,7 @@ def run(ctx):
                                   node=c, file=R.guard.file,
                                   witness="any decorated operation called before connect() writes its command")
         # the non-authenticated edge must not return normally
-        tf = cfg.facts(is_auth_true)
+        tf = cfg.facts(is_auth_true_or_nested)
         if tf and not cfg.dominates(tf, cfg.exit):
             ctx.violation("A2", R.guard.qualname, "unauthenticated-edge-returns",
                           "the wrapper can return normally without the authenticated test being true",
@@ -263,6 +310,41 @@ def run(ctx):
                 true_returns.extend(cfgt.nodes_for(r))
     if not wrap_nodes or not true_returns:
         raise AnalysisError("A5", "TLS upgrade method shape not recognised")
+    # "already secured": an attribute set True only past the handshake of THIS method and reset by connect() before the new
+    # connection is used tells that this connection went through the upgrade; reporting success again on that edge is sound
+    secured_flags = set()
+    selfp = tls.params[0]
+    for a in walk_no_nested(tls.node):
+        if isinstance(a, ast.Assign) and len(a.targets) == 1 and isinstance(a.targets[0], ast.Attribute) and isinstance(a.targets[0].value, ast.Name) \
+                and a.targets[0].value.id == selfp and const_value(ctx.program, tls, a.value) is True:
+            attr = a.targets[0].attr
+            after_wrap = all(cfgt.dominates(wrap_nodes, x, exc=False) for x in cfgt.nodes_for(a))
+            others = [f_ for f_ in R.methods.values() if f_ is not tls for w in walk_no_nested(f_.node) if isinstance(w, ast.Assign) and any(
+                isinstance(t_, ast.Attribute) and t_.attr == attr for t_ in w.targets) and const_value(ctx.program, f_, w.value) is not False]
+            conn_ = connect_method(R, "A5")
+            cfgc_ = ctx.cfg(conn_)
+            resets = [x for w in walk_no_nested(conn_.node) if isinstance(w, ast.Assign) and any(
+                isinstance(t_, ast.Attribute) and t_.attr == attr for t_ in w.targets) and const_value(ctx.program, conn_, w.value) is False
+                for x in cfgc_.nodes_for(w)]
+            uses = [x for c_ in self_calls(conn_) if c_.func.attr in G.methods and (
+                R.sender.name in G.reach_from([c_.func.attr]) or R.assembler.name in G.reach_from([c_.func.attr])) for x in cfgc_.node_containing(c_)]
+            fresh = bool(resets) and bool(uses) and all(cfgc_.dominates(resets, u, exc=False) for u in uses)
+            if after_wrap and not [o for o in others if o.name != "__init__"] and fresh:
+                secured_flags.add(attr)
+            elif after_wrap and not fresh and any(
+                    isinstance(fact_atom(fc)[0], ast.Attribute) and fact_atom(fc)[0].attr == attr for fc in cfgt.facts()):
+                ctx.violation("A5", tls, "secured-flag-stale:%s" % attr, "the TLS upgrade is skipped while .%s is set, and connect() does not reset "
+                              "it for a new connection: the flag of a previous connection makes the upgrade report success on a plain socket"
+                              % attr, node=a,
+                              witness="connect(starttls=True); connection lost; connect(starttls=True): AUTHENTICATE PLAIN goes out in clear")
+
+    def already_secured(fc):
+        e, pol = fact_atom(fc)
+        return isinstance(e, ast.Attribute) and e.attr in secured_flags and pol is True
+    again = [tr for tr in true_returns if secured_flags and cfgt.guarded(tr, already_secured)]
+    for tr in again:
+        ctx.holds("A5", "%s: success reported again for a connection that already went through the upgrade (%s)" % (tls.qualname, sorted(secured_flags)))
+    true_returns = [tr for tr in true_returns if tr not in again]
     for tr in true_returns:
         if cfgt.dominates(wrap_nodes, tr, exc=False) and sock_stores and cfgt.dominates(sock_stores, tr, exc=False):
             ctx.holds("A5", "%s: return True dominated by wrap_socket and socket replacement" % tls.qualname)
@@ -312,17 +394,7 @@ def run(ctx):
     # ---- A6 after the upgrade --------------------------------------------------
     ctx.rule("A6", "after wrap_socket and before success: capabilities cleared and re-read, plaintext read buffer discarded; "
                    "mechanism selection reads the live capability map")
-    cap_attr = None
-    capreader = None
-    for n in G.edges[conn.name]:
-        f = R.methods[n]
-        if R.assembler.name in G.edges[n] and any(
-                isinstance(x, ast.Subscript) and isinstance(x.ctx, ast.Store) and isinstance(x.value, ast.Attribute)
-                for x in ast.walk(f.node)):
-            capreader = f
-            for x in ast.walk(f.node):
-                if isinstance(x, ast.Subscript) and isinstance(x.ctx, ast.Store) and isinstance(x.value, ast.Attribute):
-                    cap_attr = x.value.attr
+    capreader, cap_attr = capability_reader(R, conn)
     if capreader is None:
         raise AnalysisError("A6", "capability reader not identified")
     clear_nodes, reread_nodes, bufreset_nodes = [], [], []
@@ -346,6 +418,17 @@ def run(ctx):
             bufreset_nodes.extend(cfgt.nodes_for(n))
     for c in self_calls(tls, capreader.name):
         reread_nodes.extend(cfgt.node_containing(c))
+    # a reader that REPLACES the table by a dictionary it built from the listing alone leaves nothing of the old one: the re-read is
+    # the clearing (a reader that stores item by item, or merges with update(), adds to what is there)
+    selfp_ = capreader.params[0]
+    replaces = any(isinstance(a, ast.Assign) and any(isinstance(t, ast.Attribute) and t.attr == cap_attr and isinstance(t.value, ast.Name)
+                                                      and t.value.id == selfp_ for t in a.targets) for a in walk_no_nested(capreader.node)) \
+        and not any(isinstance(x, ast.Subscript) and isinstance(x.ctx, ast.Store) and isinstance(x.value, ast.Attribute) and x.value.attr == cap_attr
+                    for x in ast.walk(capreader.node)) \
+        and not any(isinstance(c_, ast.Call) and isinstance(c_.func, ast.Attribute) and c_.func.attr in ("update", "setdefault")
+                    and isinstance(c_.func.value, ast.Attribute) and c_.func.value.attr == cap_attr for c_ in ast.walk(capreader.node))
+    if replaces:
+        clear_nodes.extend(reread_nodes)
     for tr in true_returns:
         def after_wrap(nodes):
             return [x for x in nodes if any(cfgt.path_exists(w, x, exc=False) for w in wrap_nodes)]
@@ -511,6 +594,43 @@ def a3(ctx, R):
     return conn
 
 
+def capability_reader(R, conn):
+    """(method, attribute): the method called by connect() that reads the capability listing through the assembler, and the attribute
+    of the client it records the capabilities in - filled item by item, or assigned a dictionary built from the listing."""
+    G = R.graph
+    for n in G.edges[conn.name]:
+        f = R.methods[n]
+        if R.assembler.name not in G.edges[n]:
+            continue
+        selfp = f.params[0]
+        for x in ast.walk(f.node):
+            if isinstance(x, ast.Subscript) and isinstance(x.ctx, ast.Store) and isinstance(x.value, ast.Attribute) \
+                    and isinstance(x.value.value, ast.Name) and x.value.value.id == selfp:
+                return f, x.value.attr
+        # a dictionary filled in a local, then stored / merged as a whole
+        local_dicts = {a.targets[0].id for a in walk_no_nested(f.node) if isinstance(a, ast.Assign) and len(a.targets) == 1
+                       and isinstance(a.targets[0], ast.Name) and (isinstance(a.value, (ast.Dict, ast.DictComp)) or (
+                           isinstance(a.value, ast.Call) and call_name(a.value) == "dict"))}
+        grew = True
+        while grew:
+            grew = False
+            for a in walk_no_nested(f.node):
+                if isinstance(a, ast.Assign) and len(a.targets) == 1 and isinstance(a.targets[0], ast.Name) and isinstance(a.value, ast.Name) \
+                        and a.value.id in local_dicts and a.targets[0].id not in local_dicts:
+                    local_dicts.add(a.targets[0].id)
+                    grew = True
+        for a in walk_no_nested(f.node):
+            if isinstance(a, ast.Assign) and len(a.targets) == 1 and isinstance(a.targets[0], ast.Attribute) and isinstance(a.targets[0].value, ast.Name) \
+                    and a.targets[0].value.id == selfp and (isinstance(a.value, (ast.Dict, ast.DictComp)) or (
+                        isinstance(a.value, ast.Name) and a.value.id in local_dicts)):
+                return f, a.targets[0].attr
+            if isinstance(a, ast.Expr) and isinstance(a.value, ast.Call) and isinstance(a.value.func, ast.Attribute) and a.value.func.attr == "update" \
+                    and isinstance(a.value.func.value, ast.Attribute) and isinstance(a.value.func.value.value, ast.Name) \
+                    and a.value.func.value.value.id == selfp and a.value.args and isinstance(a.value.args[0], ast.Name) and a.value.args[0].id in local_dicts:
+                return f, a.value.func.value.attr
+    return None, None
+
+
 def a8(ctx, R):
     """Per-connection state (shared with C05, C14, C15, C16): what was recorded for a previous connection - the capability table
     and the unread bytes - does not apply to a new one."""
@@ -518,14 +638,7 @@ def a8(ctx, R):
     G = R.graph
     conn = connect_method(R, "A8")
     cfgc = ctx.cfg(conn)
-    cap_attr = None
-    for n in G.edges[conn.name]:
-        f = R.methods[n]
-        if R.assembler.name in G.edges[n]:
-            for x in ast.walk(f.node):
-                if isinstance(x, ast.Subscript) and isinstance(x.ctx, ast.Store) and isinstance(x.value, ast.Attribute) \
-                        and isinstance(x.value.value, ast.Name) and x.value.value.id == f.params[0]:
-                    cap_attr = x.value.attr
+    _, cap_attr = capability_reader(R, conn)
     if cap_attr is None:
         raise AnalysisError("A8", "capability table not identified")
     first_use = []
